@@ -55,6 +55,35 @@ impl NonFungibleToken for ExplicitNft {
 #[contractimpl(contracttrait)]
 impl NonFungibleBurnable for ExplicitNft {}
 
+/// harness contract: the consecutive flavour built from the library's pieces with every entry point LEFT TO THE
+/// TRAIT DEFAULTS (`type ContractType = Consecutive`, dispatch through `ContractOverrides`) — the example contract
+/// spells every method out and so never reaches that dispatch
+#[contract]
+pub struct ConsLib;
+
+#[contractimpl]
+impl ConsLib {
+    pub fn __constructor(e: &Env, uri: SString, name: SString, symbol: SString, owner: Address) {
+        e.storage().instance().set(&XKey::Admin, &owner);
+        Base::set_metadata(e, uri, name, symbol);
+    }
+    pub fn batch_mint(e: &Env, to: Address, amount: u32) -> u32 {
+        let owner: Address = e.storage().instance().get(&XKey::Admin).expect("owner should be set");
+        owner.require_auth();
+        stellar_tokens::non_fungible::consecutive::Consecutive::batch_mint(e, &to, amount)
+    }
+}
+
+#[contractimpl(contracttrait)]
+impl NonFungibleToken for ConsLib {
+    type ContractType = stellar_tokens::non_fungible::consecutive::Consecutive;
+}
+
+impl stellar_tokens::non_fungible::consecutive::NonFungibleConsecutive for ConsLib {}
+
+#[contractimpl(contracttrait)]
+impl NonFungibleBurnable for ConsLib {}
+
 pub const N: usize = 6; // actors 0..5; index 6 is the contracts' admin (signs mints only)
 pub const ADMIN: usize = 6;
 pub const MAX_TTL: u32 = 200_000;
@@ -96,6 +125,8 @@ pub struct Sim {
     pub u: Universe,
     pub tok: Address,
     pub fl: Flavour,
+    /// the consecutive flavour: the library-built contract `ConsLib` instead of the example contract
+    pub lib: bool,
     pub now: u32,
     pub min_temp: u32,
     pub max_ttl: u32,
@@ -148,6 +179,7 @@ impl Sim {
             Flavour::Seq => e.register(ex_seq::ExampleContract, (uri, name, sym, admin)),
             Flavour::Exp => e.register(ExplicitNft, (uri, name, sym, admin)),
             Flavour::Enum => e.register(ex_enum::ExampleContract, (uri, name, sym, admin)),
+            Flavour::Cons if k % 3 == 2 => e.register(ConsLib, (uri, name, sym, admin)),
             Flavour::Cons => e.register(ex_cons::ExampleContract, (uri, name, sym, admin)),
             Flavour::Acx => {
                 let c = e.register(ex_acx::ExampleContract, (uri, name, sym, admin.clone()));
@@ -166,7 +198,7 @@ impl Sim {
                 c
             }
         };
-        Sim { e, u, tok, fl, now: start, min_temp, max_ttl }
+        Sim { e, u, tok, fl, lib: fl == Flavour::Cons && k % 3 == 2, now: start, min_temp, max_ttl }
     }
     pub fn label(&self, what: &str) -> String {
         format!("{} flavour={} min_temp={} start={} max_ttl={}", what, self.fl.name(), self.min_temp, self.now, self.max_ttl)
@@ -192,6 +224,7 @@ impl Sim {
         };
         let func = soroban_sdk::Symbol::new(e, "owner_of").to_symbol_val().clone();
         let fl = self.fl;
+        let lib = self.lib;
         let mut res: Vec<Option<usize>> = vec![];
         let mut id = lo;
         loop {
@@ -205,6 +238,7 @@ impl Sim {
                             Flavour::Seq => <ex_seq::ExampleContract as NonFungibleToken>::owner_of(e, j),
                             Flavour::Exp => <ExplicitNft as NonFungibleToken>::owner_of(e, j),
                             Flavour::Enum => <ex_enum::ExampleContract as NonFungibleToken>::owner_of(e, j),
+                            Flavour::Cons if lib => <ConsLib as NonFungibleToken>::owner_of(e, j),
                             Flavour::Cons => <ex_cons::ExampleContract as NonFungibleToken>::owner_of(e, j),
                             Flavour::Acx => <ex_acx::ExampleContract as NonFungibleToken>::owner_of(e, j),
                         });
